@@ -5,7 +5,8 @@
 
 package imports
 
-//@ property C19: matchTag, matchTags, MatchFile, matchOS
+//@ property C19: matchTag, matchTags, MatchFile, matchOS, ShouldBuild
+//@ bounded C19: TestVerifBoundedShouldBuild
 
 // ---- vocabulary of property C19 (Go's build-constraint rules) ----
 //
@@ -61,3 +62,16 @@ package imports
 //@   pure
 //@   requires tags != nil
 //@   ensures result == selects(tags, goos)
+
+// ShouldBuild: memory safety of both passes (every slice and index expression,
+// including f[0] on the fields of a "+" line) for every content; the evaluation
+// of each option goes through matchTags' contract.
+//@ func ShouldBuild
+//@   pure
+//@   requires tags != nil
+//@   loop 1: invariant ref(p) == ref(content) && lo(content) <= lo(p) && hi(p) == hi(content) && cap(p) >= len(p)
+//@   loop 1: invariant 0 <= end && end <= len(content)
+//@   loop 1: decreases len(p)
+//@   loop 2: invariant lo(content) <= lo(p) && hi(p) <= hi(content) && cap(p) >= len(p)
+//@   loop 2: decreases len(p)
+//@   loop 3: invariant -1 <= rangeindex
